@@ -1,9 +1,28 @@
 import WzVerif.Driver.Proto
+import WzVerif.Driver.C03
+import WzVerif.Model.RoutingRoundtrip
 namespace Wz.Driver.C04
-open Wz Wz.Proto
+open Wz Wz.Proto Wz.Routing Wz.Routing.Wire
 
-/-- stub: no model commands yet -/
+def outBuilt : Except String Str → String
+  | .ok u => "U " ++ hexStr u
+  | .error e => "EXC:" ++ e
+
 def handle : Handler
-  | _, _ => none
+  | "route.roundtrip", [m, a, ep, vals, method, mm, fe] =>
+    match mapArg m, adapterArg a, unhexStr ep, valuesArg vals, optArg unhexStr method, optArg unhexStr mm, boolArg fe with
+    | some (some m), some a, some ep, some vals, some method, some mm, some fe =>
+      let (b1, o, b2) := roundtrip m a ep vals method mm fe
+      some (outBuilt b1 ++ " ; " ++ outOpt outOutcome o ++ " ; " ++ outOpt outBuilt b2)
+    | some none, _, _, _, _, _, _ => some "UNSUPPORTED"
+    | _, _, _, _, _, _, _ => some badArgs
+  | "route.toconv", [c, v] =>
+    match convArg c, valueArg v with
+    | some c, some v =>
+      some (match toUrl c v with
+            | .ok u => "U " ++ hexStr u ++ " " ++ outOpt outValue (toPython c (unquote u)) ++ " " ++ outBool (regexAccepts c (unquote u))
+            | .error e => "EXC:" ++ e)
+    | _, _ => some badArgs
+  | cmd, args => Wz.Driver.C03.routing cmd args
 
 end Wz.Driver.C04
